@@ -16,7 +16,10 @@ META = {
     'reprs feeding it print both intervals losslessly and curve reprs are '
     'distinct (R-cachekey); every np.load of the two cached methods sits in '
     'a try whose handler falls through to recomputation, np.save is best '
-    'effort, the inline path never touches the cache (R-cacheio).',
+    'effort, the inline path never touches the cache (R-cacheio); the '
+    'load-vector file name carries the problem identifier; reductions '
+    'over a set use fsum (R-determinism); storage whose store is skipped '
+    'by a causality pre-filter is created by np.zeros (R-zero-storage).',
     'checker_cmd': 'python3-vt -m stbem_static C17 --tier <tier>',
     'trusted_base': ['CPython ast', 'fork semantics of multiprocessing '
                      '(workers see the module globals as of pool creation)',
